@@ -599,9 +599,6 @@ func runFIOPlaceholder(c *Ctx, checker bool) {
 			}
 			continue
 		}
-		if p.mixed {
-			continue // the object with the unfilled blanks does not parse
-		}
 		if res.file == nil {
 			continue // the Writer refused the program: reported by the C02 run
 		}
@@ -667,7 +664,7 @@ func fioPhEncryptedStringCase(v pdf.Version, seekable bool) (diff string) {
 		return "NewWriter: " + err.Error()
 	}
 	w.GetMeta().Catalog.Pages = w.Alloc()
-	ph := pdf.NewPlaceholder(w, 24)
+	ph := pdf.NewPlaceholder(w, 120) // room for the ciphertext (AES: IV and padding, escapes)
 	a := w.Alloc()
 	if err := w.Put(a, pdf.Dict{"S": ph, "T": pdf.String("direct")}); err != nil {
 		return "Put: " + err.Error()
